@@ -8,6 +8,7 @@ import (
 	"github.com/KevoDB/kevo/pkg/common/iterator"
 	"github.com/KevoDB/kevo/pkg/common/iterator/bounded"
 	"github.com/KevoDB/kevo/pkg/common/iterator/composite"
+	"github.com/KevoDB/kevo/pkg/verifhook"
 	"github.com/KevoDB/kevo/pkg/wal"
 )
 
@@ -260,8 +261,11 @@ func (tx *TransactionImpl) Commit() error {
 			}
 		}
 
+		verifhook.At1("tx.commit.pre", uint64(len(walBatch)))
+
 		// Apply the batch atomically
 		err = tx.storage.ApplyBatch(walBatch)
+		verifhook.At("tx.commit.applied")
 	}
 
 	// Release the write lock
@@ -288,6 +292,7 @@ func (tx *TransactionImpl) Rollback() error {
 
 	// Clear the buffer
 	tx.buffer.Clear()
+	verifhook.At("tx.rollback")
 
 	// Release locks based on transaction mode
 	if tx.mode == ReadOnly {
@@ -313,6 +318,7 @@ func (tx *TransactionImpl) IsReadOnly() bool {
 func (tx *TransactionImpl) releaseReadLock() {
 	if tx.hasReadLock.CompareAndSwap(true, false) {
 		tx.rwLock.RUnlock()
+		verifhook.At1("tx.unlock", 0)
 	}
 }
 
@@ -320,5 +326,6 @@ func (tx *TransactionImpl) releaseReadLock() {
 func (tx *TransactionImpl) releaseWriteLock() {
 	if tx.hasWriteLock.CompareAndSwap(true, false) {
 		tx.rwLock.Unlock()
+		verifhook.At1("tx.unlock", 1)
 	}
 }
